@@ -1799,7 +1799,9 @@ fn brief_notes(n: &[INote]) -> Vec<(u32, usize, [f64; 2], Option<String>)> {
 // ---------------------------------------------------------------------------------------------
 
 fn encodes_as(part: &str, raw: &[u8]) -> bool {
-    raw == textstring::encode(part).as_slice() || raw == part.as_bytes()
+    // any encoding of the same text string is the same name (PDFDocEncoding or UTF-16BE with BOM); raw UTF-8 is the
+    // library's former mis-encoding, still accepted here so that the gate is about exposure, not about encoding
+    textstring::decode(raw) == part || raw == textstring::encode(part).as_slice() || raw == part.as_bytes()
 }
 
 pub fn check(c: &Case) -> Outcome {
